@@ -56,6 +56,7 @@ nni_mtx_unlock(nni_mtx *m)
 /* as src/platform/posix/posix_thread.c: the cv remembers its mutex */
 void nni_cv_init(nni_cv *cv, nni_mtx *m) { cv->mtx = &m->mtx; }
 void nni_cv_fini(nni_cv *cv) { (void) cv; g_cv_fini++; }
+static void vp_eq_wake_check(void);
 static void vp_cv_count(nni_cv *cv, bool all)
 {
 	__CPROVER_assert(cv == g_cv_task0 || cv == g_cv_task1 || cv == g_cv_sched || cv == g_cv_drain || cv == g_cv_eq,
@@ -63,6 +64,7 @@ static void vp_cv_count(nni_cv *cv, bool all)
 	__CPROVER_assert(VP_HELD((nni_mtx *) cv->mtx), "cv wake under the cv's own mutex (no lost wake-up)");
 	if (cv == g_cv_eq) {
 		g_wk_eq++;
+		vp_eq_wake_check();
 	} else if (cv == g_cv_task0) {
 		g_wk_task0++;
 	} else if (cv == g_cv_task1) {
@@ -126,16 +128,18 @@ void nni_thr_set_name(nni_thr *thr, const char *n)
 	(void) thr;
 	if (n[4] == 'a') {
 		/* "nng:aio:expire": the same for nni_aio_expire_loop (expire units) */
-		__CPROVER_assert(g_expire_unit, "the expire thread body is entered only as a thread, never as a task callback");
-		__CPROVER_assume(g_expire_unit);
+		__CPROVER_assert(g_expire_unit && !g_thread_entered, "the expire thread body is entered only as a thread (once), never as a task callback");
+		__CPROVER_assume(g_expire_unit && !g_thread_entered);
+		g_thread_entered = true;
 		return;
 	}
 	/* Only called as the first statement of nni_taskq_thread, which has the same type as a task
 	 * callback and is therefore a syntactic candidate of every indirect call task_cb(arg).
 	 * g_worker_unit is a CONSTANT of each harness: asserting it proves the thread body is never
 	 * entered as a callback; the assume after the (checked) assert only lets symex prune. */
-	__CPROVER_assert(g_worker_unit, "the worker thread body is entered only as a thread, never as a task callback");
-	__CPROVER_assume(g_worker_unit);
+	__CPROVER_assert(g_worker_unit && !g_thread_entered, "the worker thread body is entered only as a thread (once), never as a task callback");
+	__CPROVER_assume(g_worker_unit && !g_thread_entered);
+	g_thread_entered = true;
 }
 
 void
